@@ -95,12 +95,14 @@ def _make_fixed_stepper(solver: SolverBase, state: TField) -> InnerStepperType:
         state_data: NumericArray, t_start: float, steps: int, post_step_data: Any
     ) -> tuple[float, Any]:
         """Perform `steps` steps with fixed time steps."""
+        state = state_data
         for i in range(steps):
             # calculate the right hand side
             t = t_start + i * dt
-            state_data = single_step(state_data, t)
-            state_data, post_step_data = post_step_hook(state_data, t, post_step_data)
+            state = single_step(state, t)
+            state, post_step_data = post_step_hook(state, t, post_step_data)
 
+        state_data[:] = state  # need to copy since post_step_hook could change data
         return t + dt, post_step_data
 
     def fixed_stepper(state_data: NumericArray, t_start: float, t_end: float) -> float:
@@ -156,15 +158,17 @@ def _make_adams_bashforth_stepper(
         post_step_data: Any,
     ) -> tuple[float, Any]:
         """Perform `steps` steps with fixed time steps."""
+        state = state_data
         for i in range(steps):
             # calculate the right hand side
             t = t_start + i * dt
             rhs_prev = rhs_pde(state_prev, t - dt).copy()
-            rhs_cur = rhs_pde(state_data, t)
-            state_prev[:] = state_data  # save the previous state
-            state_data += dt * (1.5 * rhs_cur - 0.5 * rhs_prev)
-            state_data, post_step_data = post_step_hook(state_data, t, post_step_data)
+            rhs_cur = rhs_pde(state, t)
+            state_prev[:] = state  # save the previous state
+            state += dt * (1.5 * rhs_cur - 0.5 * rhs_prev)
+            state, post_step_data = post_step_hook(state, t, post_step_data)
 
+        state_data[:] = state  # need to copy since post_step_hook could change data
         return t + dt, post_step_data
 
     # allocate memory to store the state of the previous time step; this memory will be
@@ -264,10 +268,11 @@ def _make_adaptive_stepper_general(
             if error_rel <= 1:
                 steps += 1
                 t += dt_step
-                state_data[...] = new_state
-                state_data, post_step_data = post_step_hook(
-                    state_data, t, post_step_data
+                # copy new state into state_data to accept it
+                new_state, post_step_data = post_step_hook(
+                    new_state, t, post_step_data
                 )
+                state_data[...] = new_state
 
                 if dt_stats is not None:
                     dt_stats.add(dt_step)
